@@ -155,6 +155,12 @@ def gen_ops(r, doc):
             break
     for op in ops:
         op.pop("_container_path", None)
+    if r.random() < 0.12:
+        # two operations carry the SAME value object, and a later operation writes into what the first one inserted
+        shared = r.choice([[], {}, [[]], {"k": []}])
+        ops = [{"op": r.choice(["add", "addne", "addap"]), "path": "/sh1", "value": shared}, {"op": r.choice(["add", "replace", "addne"]), "path": "/sh2" if r.random() < 0.7 else "/sh1", "value": shared},
+               {"op": "add", "path": "/sh1/-" if isinstance(shared, list) else "/sh1/new", "value": "written-into-the-first"}] + ops[:2]
+        directed = True
     return ops, directed
 
 
